@@ -15,18 +15,29 @@ variable (T : Tables)
 
 /-! ### the actions that drop an item are confined to droppable items -/
 
-theorem scan_skip_droppable (c : Ctx) (it : Item) : ∀ ks ty, scan T c it ks = .skip ty →
-    (it.cands.contains (classId T "SubprogramPrefix") = true ∨ it.decls ≠ []) := by
+theorem singleDecl_of_all (it : Item) (n : Str) (hc : it.decls.contains n = true)
+    (ha : it.decls.all (· == n) = true) : singleDecl it = true := by
+  unfold singleDecl
+  cases hd : it.decls with
+  | nil => rw [hd] at hc; simp at hc
+  | cons d ds =>
+    rw [hd] at ha
+    simp only [List.all_cons, Bool.and_eq_true, beq_iff_eq] at ha
+    obtain ⟨rfl, h2⟩ := ha
+    simpa using h2
+
+theorem scan_skip_droppable (c : Ctx) (it : Item) : ∀ ks, scan T c it ks = .skip →
+    (it.cands.contains (classId T "SubprogramPrefix") = true ∨ singleDecl it = true) := by
   intro ks
   induction ks with
-  | nil => intro ty h; simp [scan] at h
+  | nil => intro h; simp [scan] at h
   | cons k ks ih =>
-    intro ty h
+    intro h
     simp only [scan] at h
     split at h
     · split at h
       · split at h <;> simp at h
-      · exact ih ty h
+      · exact ih h
     · split at h
       · rename_i hc
         split at h
@@ -35,16 +46,21 @@ theorem scan_skip_droppable (c : Ctx) (it : Item) : ∀ ks ty, scan T c it ks = 
           · left
             have : k = classId T "SubprogramPrefix" := by simpa using hk
             rw [← this]; exact hc
-          · exact ih ty h
+          · exact ih h
         · split at h
           · rename_i hd
-            right
-            intro he
-            simp [he] at hd
+            split at h
+            · simp at h
+            · split at h
+              · rename_i hall
+                right
+                simp only [typesFn, Bool.and_eq_true] at hd
+                exact singleDecl_of_all it c.name hd.2 hall
+              · simp at h
           · simp at h
-      · exact ih ty h
+      · exact ih h
 
-theorem step_skip_droppable (c : Ctx) (it : Item) (ty : Bool) (h : step T c it = .skip ty) :
+theorem step_skip_droppable (c : Ctx) (it : Item) (h : step T c it = .skip) :
     droppable T it = true := by
   unfold step at h
   split at h
@@ -53,7 +69,7 @@ theorem step_skip_droppable (c : Ctx) (it : Item) (ty : Bool) (h : step T c it =
     · simp at h
     · split at h
       · simp at h
-      · rcases scan_skip_droppable T c it _ ty h with h1 | h1
+      · rcases scan_skip_droppable T c it _ h with h1 | h1
         · have h1' : classId T "SubprogramPrefix" ∈ it.cands := by simpa using h1
           simp [droppable, h1']
         · simp [droppable, h1]
@@ -83,7 +99,9 @@ theorem step_comment (c : Ctx) (it : Item) (h : step T c it = .comment) : it.isC
                 · simp
                 · exact ih
               · split
-                · split <;> simp
+                · split
+                  · simp
+                  · split <;> simp
                 · simp
             · exact ih
 
@@ -132,8 +150,8 @@ theorem fill_sublist (ic : Bool) (f : Nat) : ∀ (c : Ctx) (ls : List Item) (t :
           obtain ⟨rfl, rfl⟩ := h
           simp [flat]
         · -- ignored statement
-          rename_i ty hs
-          have hd := step_skip_droppable T c it ty hs
+          rename_i hs
+          have hd := step_skip_droppable T c it hs
           split at h
           · simp at h
             obtain ⟨rfl, rfl⟩ := h
